@@ -765,6 +765,8 @@ func main() {
 	/* how the TLS connection is made, and whether the accessors ever write to the document */
 	b.WriteString("/-- the arguments of every tls.Dial* call in jtp/jtp.go (a nil config: Go's defaults, no client session cache, no client certificate) -/\ndef tlsDialArgs : List String := " + leanList(tlsDialArgs(parseFile(root, "jtp/jtp.go"))) + "\n\n")
 	b.WriteString(fmt.Sprintf("/-- assignments through an index expression (`m[k] = v`, `m[k] += v`, …) and delete() calls in object/object.go -/\ndef objectMapWrites : Nat := %d\n\n", mapWrites(parseFile(root, "object/object.go"))))
+	/* Splicer.Harvest works on a clone */
+	b.WriteString("/-- the statements of Splicer.Harvest up to and including the call of replenish -/\ndef splicerHarvestHead : List String := " + leanList(splicerHead(parseFile(root, "splicer/splicer.go"))) + "\n\n")
 	/* the decision skeleton of config.postprocess */
 	b.WriteString("/-- every top-level statement of config.postprocess, in order: conversions, rejections (with the key named in the message), early acceptance, anything else -/\ndef postprocessSkeleton : List String := " + leanList(postprocessSkeleton(parseFile(root, "config/config.go"))) + "\n\n")
 	b.WriteString("end Generated\n")
@@ -1125,4 +1127,36 @@ func mapWrites(f *ast.File) int {
 		return true
 	})
 	return n
+}
+
+func splicerHead(f *ast.File) []string {
+	out := []string{}
+	for _, d := range f.Decls {
+		fd, ok := d.(*ast.FuncDecl)
+		if !ok || fd.Name.Name != "Harvest" || fd.Recv == nil {
+			continue
+		}
+		for _, st := range fd.Body.List {
+			desc := fmt.Sprintf("<%T>", st)
+			switch x := st.(type) {
+			case *ast.AssignStmt:
+				l := []string{}
+				for _, e := range x.Lhs {
+					l = append(l, exprString(e))
+				}
+				r := []string{}
+				for _, e := range x.Rhs {
+					r = append(r, exprFull(e))
+				}
+				desc = strings.Join(l, ",") + x.Tok.String() + strings.Join(r, ",")
+			case *ast.ExprStmt:
+				desc = exprFull(x.X)
+			}
+			out = append(out, desc)
+			if strings.Contains(desc, "replenish") {
+				break
+			}
+		}
+	}
+	return out
 }
